@@ -253,6 +253,9 @@ func (c *Ctx) funcValues(hv hVal, depth int) []funcVal {
 		if f, ok := x.Fn.(*ssa.Function); ok {
 			return []funcVal{{closure: f, mc: x, env: hv.env}}
 		}
+	case *ssa.ChangeType:
+		// conversion between a func type and a named func type
+		return c.funcValues(hVal{x.X, hv.env}, depth+1)
 	case *ssa.Phi:
 		var out []funcVal
 		for i, e := range x.Edges {
